@@ -11,6 +11,7 @@ from pyvc.harness import harness, structural
 from ramses_rf import gateway as G
 from ramses_rf.system import schedule as S
 from ramses_tx import exceptions as exc
+from ramses_tx import gateway as TXG
 
 
 def may_raise(tag):
@@ -83,6 +84,114 @@ def restore_always_resumes():
     outcome(gwy._restore_cached_packets, {"2023-11-30T13:15:00.000000": "..."})
     check(gwy._ghost_paused == 1, "_restore_cached_packets pauses the engine once")
     check(gwy._ghost_resumed == gwy._ghost_paused, "the engine is resumed on every exit of _restore_cached_packets")
+
+
+# -- the bracketing calls themselves: Engine._pause / Engine._resume on the real state
+class FakeLock:
+    """threading.Lock by contract (single thread): acquire fails iff it is already held."""
+
+    def __init__(self):
+        self.held = False
+
+    def acquire(self, blocking=True, timeout=-1):
+        if self.held:
+            return False
+        self.held = True
+        return True
+
+    def release(self):
+        if not self.held:
+            raise RuntimeError("release unlocked lock")
+        self.held = False
+
+
+class FakeProtocol:
+    def __init__(self, handler):
+        self._msg_handler = handler
+        self.writing = True
+
+    def pause_writing(self):
+        self.writing = False
+
+    def resume_writing(self):
+        self.writing = True
+
+
+class FakeTransport:
+    def __init__(self):
+        self.reading = True
+
+    def pause_reading(self):
+        self.reading = False
+
+    def resume_reading(self):
+        self.reading = True
+
+
+@harness("C13", cases=[(k,) for k in (1, 2, 3, 4)], quick=lambda k: k <= 3)
+def pause_and_resume_restore_the_engine(k):
+    """Engine._pause / Engine._resume, any sequence of k calls (a snapshot taken while a restore is in
+    flight is a pause inside a pause): a pause of a running engine stops reception and sending, a
+    pause of a paused engine is refused and changes nothing, a resume restores the handler and the
+    read-only flag that were saved -- and the engine lock is never left held, so the next call is
+    never refused for that reason.  Whenever the calls balance, the engine runs exactly as before."""
+    handler = opaque("msg_handler")
+    read_only = sym_bool("read_only")
+    proto, lock = FakeProtocol(handler), FakeLock()
+    tr = FakeTransport() if sym_bool("has_transport") else None
+    eng = new_object(TXG.Engine, _engine_lock=lock, _engine_state=None, _protocol=proto, _transport=tr, _disable_sending=read_only)
+    paused = False
+    for i in range(k):
+        op = sym_choice(f"op_{i}", ["pause", "resume"])
+        o = outcome(eng._pause if op == "pause" else eng._resume)
+        check(lock.held is False, "the engine lock is not left held by _pause / _resume, whether it succeeded or not")
+        if op == "pause":
+            check(o.ok == (not paused), "pausing succeeds iff the engine was running")
+            check(o.ok or isinstance(o.exc, RuntimeError), "a refused pause raises RuntimeError")
+            paused = True
+        else:
+            check(o.ok == paused, "resuming succeeds iff the engine was paused")
+            check(o.ok or isinstance(o.exc, RuntimeError), "a refused resume raises RuntimeError")
+            paused = False
+        if paused:
+            check(And(proto._msg_handler is None, eng._disable_sending is True, tr is None or tr.reading is False),
+                  "while paused nothing is handled and nothing is sent")
+        else:
+            check(And(proto._msg_handler is handler, eng._disable_sending == read_only, tr is None or tr.reading is True,
+                      Or(read_only, proto.writing is True), eng._engine_state is None),
+                  "once resumed the engine runs exactly as before: same handler, same read-only flag, receiving, able to send")
+
+
+class FakeConfig:
+    def __init__(self, disable_discovery):
+        self.disable_discovery = disable_discovery
+
+
+@harness("C13", stubs={G.Gateway.schema.fget: schema_stub})
+def get_state_leaves_the_engine_as_it_was():
+    """Gateway.get_state over the real Engine._pause / _resume: whether it returns, fails on something it
+    reads, or is refused because the engine is already paused (a restore is in flight), the engine is
+    afterwards in the state it was in before -- running with its handler and read-only flag, or
+    still paused for the operation in flight -- and the engine lock is free."""
+    handler = opaque("msg_handler")
+    read_only = sym_bool("read_only")
+    proto, lock, tr = FakeProtocol(handler), FakeLock(), FakeTransport()
+    no_disc = sym_bool("disable_discovery")
+    gwy = new_object(G.Gateway, devices=[FakeDevice("a")], _zzz=None, _engine_lock=lock, _engine_state=None, _protocol=proto,
+                     _transport=tr, _disable_sending=read_only, config=FakeConfig(no_disc))
+    in_flight = sym_bool("a_restore_is_in_flight")
+    if in_flight:
+        gwy._pause()
+    o = outcome(gwy.get_state, sym_bool("include_expired"))
+    check(lock.held is False, "the engine lock is free after get_state, however it ends")
+    if in_flight:
+        check(not o.ok, "a snapshot during a restore is refused")
+        check(And(gwy._engine_state is not None, proto._msg_handler is None), "and the restore in flight is still paused, to be resumed by its owner")
+        r = outcome(gwy._resume)
+        check(r.ok, "the owner's resume then succeeds")
+    check(And(proto._msg_handler is handler, gwy._disable_sending == read_only, tr.reading is True, Or(read_only, proto.writing is True),
+              gwy._engine_state is None, gwy.config.disable_discovery == no_disc),
+          "the gateway runs exactly as before the snapshot: still receiving, still able to send, discovery as it was")
 
 
 # ---- C18 -----------------------------------------------------------------------------------------------
